@@ -53,18 +53,22 @@ WCfg(api, st, nt, m, adj, ad, aad, al, ex) ==
      adjoint_adaptive |-> aad, align |-> al, extra |-> ex]
 
 \* the same call as a configuration of Dispatch.tla (a given Brownian motion with Foster's Levy area,
-\* which every solver accepts; no options, no logqp, well-formed arguments)
-ToDispatch(c) == D!Cfg(c.api, c.st, c.nt, c.method, FALSE, "given", "foster", c.adaptive, FALSE,
-                       c.adj, FALSE, "none")
-Accepted(c) == D!Documented(ToDispatch(c))
-
-\* sdeint has neither adjoint_method nor adjoint_adaptive
-AdjChoices(api) == IF api = "sdeint" THEN {<<"NA", FALSE>>}
-                   ELSE {<<a, b>> : a \in MethodArgs, b \in BOOLEAN}
+\* which every solver accepts; no options, no logqp, well-formed arguments).  Whether a call is accepted
+\* does not depend on adaptive / adjoint_adaptive / ts / extra keyword arguments.
+ToDispatch(api, st, nt, m, adj) ==
+    D!Cfg(api, st, nt, m, FALSE, "given", "foster", FALSE, FALSE, adj, FALSE, "none")
+\* sdeint has neither adjoint_method nor adjoint_adaptive ("NA")
+AcceptedCore ==
+    {x \in Apis \X D!SdeTypes \X D!NoiseTypes \X MethodArgs \X (MethodArgs \cup {"NA"}) :
+        /\ (x[1] = "sdeint") = (x[5] = "NA")
+        /\ D!Documented(ToDispatch(x[1], x[2], x[3], x[4], x[5]))}
+Accepted(c) == <<c.api, c.st, c.nt, c.method, c.adj>> \in AcceptedCore
+AdjAdaptiveChoices(api) == IF api = "sdeint" THEN {FALSE} ELSE BOOLEAN
 
 (* (a) DECLARATIVE *)
-ResolvedMethod(c)  == D!DocMethod(ToDispatch(c))        \* "Defaults to a sensible choice ..."
-ResolvedAdjoint(c) == D!DocAdjMethod(ToDispatch(c))
+\* "Defaults to a sensible choice depending on the SDE type and noise type of the supplied SDE."
+ResolvedMethod(c)  == IF c.method = "None" THEN D!DocDefaultMethod(c.st, c.nt) ELSE c.method
+ResolvedAdjoint(c) == IF c.adj = "None" THEN D!DocDefaultAdjoint(c.st, c.nt, ResolvedMethod(c)) ELSE c.adj
 IsAligned(c) == c.align # "misaligned"
 
 \* misc.handle_unused_kwargs: "Unexpected arguments {...}" -- one warning however many there are
@@ -91,14 +95,12 @@ DispatchClasses == {"unused_kwargs", "euler_adaptive"} \cup RevHeunClasses
 
 (* (b) OPERATIONAL: one action per warning site, in source order *)
 DStages == <<"UnusedKwargs", "DefaultMethod", "EulerAdaptive", "DefaultAdjoint", "RevHeunMethod",
-             "RevHeunSteps", "Integrate", "done">>
+             "RevHeunSteps", "done">>
 
 InitD == /\ mach = "dispatch"
-         /\ \E api \in Apis, st \in D!SdeTypes, nt \in D!NoiseTypes, m \in MethodArgs,
-               ad \in BOOLEAN, al \in Aligns, ex \in Extras :
-              \E x \in AdjChoices(api) :
-                 LET c == WCfg(api, st, nt, m, x[1], ad, x[2], al, ex)
-                 IN Accepted(c) /\ cfg = c
+         /\ \E x \in AcceptedCore, ad \in BOOLEAN, al \in Aligns, ex \in Extras :
+              \E aad \in AdjAdaptiveChoices(x[1]) :
+                 cfg = WCfg(x[1], x[2], x[3], x[4], x[5], ad, aad, al, ex)
          /\ stage = "UnusedKwargs"
          /\ warned = {} /\ wlog = <<>>
          /\ aux = [method |-> Unset, adjm |-> Unset]
@@ -121,7 +123,7 @@ WDefaultMethod == /\ AtD("DefaultMethod")
 \* sdeint.py:277-279 (end of check_contract)
 WEulerAdaptive == /\ AtD("EulerAdaptive")
                   /\ WarnIf(cfg.adaptive /\ aux.method = "euler" /\ cfg.nt # "additive", "euler_adaptive")
-                  /\ GoD(IF cfg.api = "sdeint_adjoint" THEN "DefaultAdjoint" ELSE "Integrate")
+                  /\ GoD(IF cfg.api = "sdeint_adjoint" THEN "DefaultAdjoint" ELSE "done")
                   /\ UNCHANGED aux
 
 \* adjoint.py:238 / 281-296
@@ -143,14 +145,11 @@ WRevHeunSteps == /\ AtD("RevHeunSteps")
                  /\ IF aux.method # "reversible_heun" THEN NoWarn
                     ELSE IF cfg.adaptive \/ cfg.adjoint_adaptive THEN Warn("revheun_adaptive")
                     ELSE WarnIf(cfg.align = "misaligned", "revheun_spacing")
-                 /\ GoD("Integrate") /\ UNCHANGED aux
-
-\* the solve itself: no dispatch warning (the loop's own warning is the machine "minstep")
-WIntegrate == /\ AtD("Integrate")
-              /\ NoWarn /\ GoD("done") /\ UNCHANGED aux
+                 /\ GoD("done") /\ UNCHANGED aux
+\* (the solve itself has no dispatch warning; the loop's own warning is the machine "minstep")
 
 NextD == WUnusedKwargs \/ WDefaultMethod \/ WEulerAdaptive \/ WDefaultAdjoint \/ WRevHeunMethod
-         \/ WRevHeunSteps \/ WIntegrate
+         \/ WRevHeunSteps
 
 -----------------------------------------------------------------------------
 (* ============================  machine "brownian"  ============================ *)
@@ -299,10 +298,12 @@ SdeintNeverRevHeun == (IsD /\ cfg.api = "sdeint") => warned \cap RevHeunClasses 
 \* the step-saving warning replaces the spacing warning, never both
 SpacingExclusive == IsD => ~({"revheun_adaptive", "revheun_spacing"} \subseteq warned)
 \* unknown keyword arguments change nothing else
-ExtraOrthogonal == IsD => ExpectedWarnings(cfg) \ {"unused_kwargs"} = ExpectedWarnings([cfg EXCEPT !.extra = 0])
-\* only accepted configurations are enumerated, and each expected class occurs somewhere (checked by the harness
-\* on the emitted lines)
-OnlyAccepted == IsD => Accepted(cfg)
+\* (cfg never changes, StepShape: it is enough to look at the first stage)
+ExtraOrthogonal == (IsD /\ stage = "UnusedKwargs") =>
+    ExpectedWarnings(cfg) \ {"unused_kwargs"} = ExpectedWarnings([cfg EXCEPT !.extra = 0])
+\* only accepted configurations are enumerated (that each expected class occurs somewhere is checked by the
+\* harness on the emitted lines)
+OnlyAccepted == (IsD /\ stage = "UnusedKwargs") => Accepted(cfg)
 
 \* ---- brownian --------------------------------------------------------------------------------
 BrownianAgree == (IsB /\ Done) => /\ warned = BExpectedClasses(cfg)
